@@ -563,6 +563,9 @@ def fam_wide_faults(tier, seed, tag, nh=None):
         geo = dict(cb=9, ro=4, bsb=9, vclusters=64 * rng.choice([66, 70, 130]), params={"l2": [9, 1024], "rb": [9, 1024]})
         nl1 = geo["vclusters"] // 64
         images = [S.image_plain(geo, "build")]
+        if h % 2 == 1:
+            # the header lists the first 64 L1 entries only: the writes behind them make it grow
+            images[0]["desc"]["l1_entries"] = 64
         idx = [rng.choice([0, 1, 63]), rng.choice([64, 65, nl1 - 1]), rng.choice([64, 65, nl1 - 1, 127 % nl1])]
         touched = [i1 * 64 + rng.randrange(64) for i1 in idx]
         pre = [{"op": "write", "gb": touched[0], "n": 1}, {"op": "flush"}]
@@ -572,6 +575,41 @@ def fam_wide_faults(tier, seed, tag, nh=None):
         for k in range(16 if tier == "quick" else 30):
             scens.append(S.mk(f"{tag}-l1{h}-f{k}", geo, images, pre + [{"op": "fail_next", "nth": k, "partial": k % 3 == 2}] + ops + tail))
     return scens
+
+
+def fam_park3(tier, tag, seed=1):
+    """three parties, deterministic: the first call (a read, or a write in place) is parked after n of its
+    requests; a discard of its cluster runs to completion; then a write to another cluster (which may be handed
+    the released cluster); then the parked call finishes.  On the tiny device and - with the caches emptied first,
+    so that the parked call waits in a metadata load - on the pressure layout (two readers of other slices as the
+    second and third party: the slice the parked writer holds becomes the eviction victim)."""
+    out = []
+    imgs = _exh_images()
+    for v in ("plain", "backing", "special", "pressure"):
+        lay = _exh_layout(v)
+        c0, c1 = lay["g"][0] * 2, lay["g"][1] * 2
+        rdl = lay["rd"]
+        victims = [{"op": "read", "gb": c0, "n": 2}, {"op": "write", "gb": c0, "n": 1}, {"op": "write", "gb": c1, "n": 2}]
+        seconds = [{"op": "discard", "gb": c0, "n": 2}, {"op": "discard", "gb": lay["both"] * 2, "n": 4}]
+        thirds = [{"op": "write", "gb": c1, "n": 2}, {"op": "write", "gb": c1 + 1, "n": 1}]
+        if v == "pressure":
+            seconds.append({"op": "read", "gb": 130 * 2, "n": 2})
+            thirds.append({"op": "read", "gb": 195 * 2, "n": 2})
+        pres = [[], [{"op": "shrink"}]] if v == "pressure" else [[]]
+        k = 0
+        for pre in pres:
+            for a in victims:
+                for b in seconds:
+                    for c in thirds:
+                        if a == c:
+                            continue
+                        for n in range(0, 8 if tier == "quick" else 12):
+                            k += 1
+                            steps = list(lay["pre"]) + pre + [{"op": "par", "ops": [a, b, c]}]
+                            steps += rdl + [{"op": "flush"}, {"op": "fsync"}] + rdl + [{"op": "reopen"}] + rdl
+                            out.append(S.mk(f"{tag}-{v}-{k}-n{n}", lay["geo"], imgs[v], steps, sample_flag=True,
+                                            sched={"policy": "park", "seed": n}))
+    return out
 
 
 def fam_cowread(tier, seed, tag, nruns):
@@ -1023,6 +1061,8 @@ def check_C04(chk):
     scens += fam_park(chk.tier, "c04k", variants=("plain", "backing"), seed=chk.seed)
     scens += fam_exhaustive(chk.tier, "c04x", variants=("pressure",), depth=2 if chk.tier == "quick" else 3, seed=chk.seed)
     scens += fam_exhaustive_par(chk.tier, "c04y", variants=("pressure",), parn=2, seeds=(1,), sample=500 if chk.tier == "quick" else 1500, seed=chk.seed)
+    scens += fam_park3(chk.tier, "c04t", seed=chk.seed)
+    scens += [s_ for s_ in fam_growth(chk.tier, chk.seed, "c04g", 8 if chk.tier == "quick" else 48) if "-2-" in s_["name"] or "-3-" in s_["name"] or "-1-" in s_["name"]]
     scens += fam_regress()
     res, st = Q.run_batch(scens, chk.wd, mode="crash", known=chk.known_tags(), par=14)
     chk.consume(res, st, props=("C04",))
@@ -1048,6 +1088,8 @@ def check_C05(chk):
     scens += fam_park(chk.tier, "c05k", variants=("plain", "backing"), seed=chk.seed)
     scens += fam_exhaustive(chk.tier, "c05x", variants=("pressure",), depth=2 if chk.tier == "quick" else 3, seed=chk.seed)
     scens += fam_exhaustive_par(chk.tier, "c05y", variants=("pressure",), parn=2, seeds=(1,), sample=500 if chk.tier == "quick" else 1500, seed=chk.seed)
+    scens += fam_park3(chk.tier, "c05t", seed=chk.seed)
+    scens += fam_outage(chk.tier, chk.seed, "c05o", 4 if chk.tier == "quick" else 24)
     scens += fam_regress()
     res, st = Q.run_batch(scens, chk.wd, mode="crash", known=chk.known_tags(), par=14)
     chk.consume(res, st, props=("C05",))
@@ -1068,6 +1110,7 @@ def check_C06(chk):
     scens += fam_park(chk.tier, "c06k", seed=chk.seed)
     scens += fam_exhaustive_par(chk.tier, "c06x", variants=("pressure",), parn=2, seeds=(1,) if chk.tier == "quick" else (1, 2), sample=300 if chk.tier == "quick" else 1500, seed=chk.seed)
     scens += fam_park(chk.tier, "c06y", variants=("pressure",), nths=(2, 5, 8) if chk.tier == "quick" else (1, 2, 3, 5, 7, 9), light=True, seed=chk.seed)
+    scens += fam_park3(chk.tier, "c06t", seed=chk.seed)
     scens += fam_regress()
     res, st = Q.run_batch(scens, chk.wd, known=chk.known_tags(), par=14)
     chk.consume(res, st, props=("C06", "C01", "C02"))
@@ -1201,6 +1244,7 @@ def check_C10(chk):
     scens += fam_exhaustive(chk.tier, "c10e", seed=chk.seed)
     scens += fam_exhaustive_par(chk.tier, "c10p", seed=chk.seed, seeds=(1, 2))
     scens += fam_park(chk.tier, "c10k", variants=("backing", "special", "backing_short"), seed=chk.seed)
+    scens += [s_ for s_ in fam_exhaustive_faults(chk.tier, "c10f", seed=chk.seed) if "-backing-" in s_["name"] or "-special-" in s_["name"]]
     scens += fam_regress()
     res, st = Q.run_batch(scens, chk.wd, known=chk.known_tags(), par=14)
     chk.consume(res, st, props=("C10", "C01", "C02", "C03", "PANIC"))
@@ -1438,6 +1482,8 @@ def check_C07(chk):
     scens += fam_exhaustive_par(chk.tier, "c07p", seed=chk.seed, sweep=3 if chk.tier == "quick" else 5)
     scens += fam_park(chk.tier, "c07k", seed=chk.seed)
     scens += fam_exhaustive_par(chk.tier, "c07x", variants=("pressure",), parn=2, seeds=(1,), sweep=3, sample=300 if chk.tier == "quick" else 1500, seed=chk.seed)
+    scens += fam_park3(chk.tier, "c07t", seed=chk.seed)
+    scens += fam_park(chk.tier, "c07y", variants=("pressure",), nths=(2, 5, 8) if chk.tier == "quick" else (1, 2, 3, 5, 7, 9), light=True, seed=chk.seed)
     scens += fam_regress()
     res, st = Q.run_batch(scens, chk.wd, known=chk.known_tags(), par=14)
     chk.consume(res, st, props=("C07", "PANIC"))
@@ -1470,6 +1516,11 @@ def check_C18(chk):
     scens += fam_exhaustive_par(chk.tier, "c18p", seed=chk.seed, seeds=(1, 2, 3), probe=True, sweep=10 if chk.tier == "quick" else 40)
     scens += fam_park(chk.tier, "c18k", seed=chk.seed)
     scens += fam_exhaustive_par(chk.tier, "c18x", variants=("pressure",), parn=2, seeds=(1,), sample=300 if chk.tier == "quick" else 1500, seed=chk.seed)
+    scens += fam_park3(chk.tier, "c18t", seed=chk.seed)
+    fl_ = fam_exhaustive_faults(chk.tier, "c18f", seed=chk.seed)
+    for s_ in fl_:
+        s_["sample_flag"] = True
+    scens += fl_
     scens += fam_regress()
     res, st = Q.run_batch(scens, chk.wd, known=chk.known_tags(), par=14)
     chk.consume(res, st, props=("C18",))
